@@ -1494,15 +1494,19 @@ class SyncObj(object):
 
     def __loadDumpFile(self, clearJournal):
         try:
-            data = self.__serializer.deserialize()
+            data = self.__serializer.deserialize(incoming=clearJournal)
             if clearJournal:
                 # A snapshot received from the leader is a committed prefix. If this node already
                 # applied it or already holds its last entry, installing it would drop entries
-                # acknowledged earlier and move the state machine backwards: keep log and state.
+                # acknowledged earlier and move the state machine backwards: keep log and state,
+                # and keep the stored snapshot too (the journal may have been trimmed to a newer one).
                 lastIdx, lastTerm = data[1][1], data[1][2]
                 ownEntry = self.__getEntries(lastIdx, 1)
                 if lastIdx <= self.__raftLastApplied or (ownEntry and ownEntry[0][2] == lastTerm):
+                    self.__serializer.finishIncoming(False)
                     return lastIdx
+                if not self.__serializer.finishIncoming(True):
+                    return None
             if data[0] is not None:
                 if self.__consumers:
                     selfData = data[0][0]
